@@ -3,6 +3,8 @@ package checks
 import (
 	"encoding/json"
 	"fmt"
+	"math"
+	"math/big"
 	"sort"
 	"strconv"
 	"strings"
@@ -70,6 +72,9 @@ func c06Exec(c *fw.Ctx, cas c06Case) (nontrivial bool) {
 		param = " SIZE=" + cas.Declare
 		if v, err := strconv.ParseInt(cas.Declare, 10, 64); err == nil {
 			declared, numeric = v, true
+		} else if b, ok := new(big.Int).SetString(cas.Declare, 10); ok && b.Sign() > 0 {
+			// a number too large for 64 bits is still a declared size above every limit
+			declared, numeric = math.MaxInt64, true
 		}
 	}
 	r := d.Cmd("MAIL FROM:<s@o.test>" + param)
@@ -157,7 +162,8 @@ func c06Run(c *fw.Ctx) {
 				if sz == 1 {
 					continue // a 1-byte LF-normalised body would be a lone line terminator; covered by 0 and 2
 				}
-				for _, decl := range []string{"absent", "truthful", strconv.Itoa(L), strconv.Itoa(L + 1), "1", "2147483648", "x"} {
+				for _, decl := range []string{"absent", "truthful", strconv.Itoa(L), strconv.Itoa(L + 1), "1", "2147483648", "x",
+					"4294967296", "9223372036854775808", "18446744073709551616", "99999999999999999999999999"} {
 					n++
 					if !c.Mine(n) {
 						continue
